@@ -5,9 +5,10 @@ from __future__ import annotations
 
 import ast
 
-from tiv.astutil import body_walk, call_name, dotted, enclosing_stmt, guards, norm, rename, short, stores_in, try_context, walk_local
+from tiv.astutil import flatten_boolop, body_walk, call_name, dotted, enclosing_stmt, guards, norm, rename, short, stores_in, try_context, walk_local
 from tiv.cfg import CFG
 from tiv.mutate import M
+from tiv.sem import econds, trace, expand
 
 RULES = {
     "R1": "unset removes, never writes: the falsy branch of both forms of set_render_method and the deleters of jpeg_quality / "
@@ -29,6 +30,8 @@ CM, IT, KT = "image/common.py", "image/iterm2.py", "image/kitty.py"
 
 
 def _accessors(cls, prop):
+    """{'setter'/'deleter': function} of a property; the receiver parameter is renamed to `self` (role normalisation)."""
+    from tiv.roles import rename_locals
     out = {}
     for st in cls.body:
         if isinstance(st, ast.FunctionDef) and st.name == prop:
@@ -36,7 +39,20 @@ def _accessors(cls, prop):
                 dn = dotted(d) or ""
                 if dn.startswith(prop + "."):
                     out[dn.split(".")[-1]] = st
+                    if st.args.args and st.args.args[0].arg != "self":
+                        rename_locals(st, {st.args.args[0].arg: "self"})
     return out
+
+
+def _lam(e):
+    """source of a one-parameter lambda with the parameter written `self`"""
+    if isinstance(e, ast.Lambda) and len(e.args.args) == 1 and e.args.args[0].arg != "self":
+        from tiv.astutil import rename
+        old = e.args.args[0].arg
+        e2 = rename(e, {old: "self"})
+        e2.args.args[0].arg = "self"
+        return norm(e2)
+    return norm(e)
 
 
 def _is_tolerant_del(fn_or_body, cell):
@@ -81,22 +97,30 @@ def run(ck, m):
     ck.need(cls_form.args.args[0].arg == "cls" and inst_form.args.args[0].arg == "self", "set_render_method forms not in (class, instance) order")
 
     # ---- R1 ----------------------------------------------------------------------------
+    def ctx(fn, n):
+        """'unset' / 'set' / None: under which value of `method` the node executes"""
+        c = econds(fn, n)
+        if "not method" in c or "method is None" in c:
+            return "unset"
+        if "method" in c or "method is not None" in c and "not method" not in c and any(x == "method" for x in c):
+            return "set"
+        return None
     for fn, recv in ((cls_form, "cls"), (inst_form, "self")):
         cell = f"{recv}._render_method"
-        unset_if = next((s for s in fn.body if isinstance(s, ast.If) and norm(s.test) in ("not method", "method is None")), None)
-        ck.need(unset_if is not None, f"`if not method:` branch not found in {recv}-form of set_render_method")
-        d = _is_tolerant_del(unset_if.body, cell)
-        ck.ob("R1", unset_if, d is not None, f"unsetting via the {recv}-form must `del {cell}` (AttributeError tolerated) so that lookup falls through to the next level",
+        acts = [(t, st) for t, st in stores_in(ast.Module(body=fn.body, type_ignores=[])) if norm(t) == cell]
+        ck.expect(all(ctx(fn, st) is not None for _, st in acts) and bool(acts), f"{recv}-form of set_render_method: a store/delete of {cell} is not under a recognised test of `method`")
+        dels = [st for t, st in acts if isinstance(st, ast.Delete) and ctx(fn, st) == "unset"]
+        tol = [d for d in dels if any(part == "body" and any(h.type is not None and "AttributeError" in norm(h.type) for h in t.handlers) for t, part in try_context(d)[:1])]
+        ck.ob("R1", fn, len(tol) >= 1, f"unsetting via the {recv}-form must `del {cell}` (AttributeError tolerated) so that lookup falls through to the next level",
               stmt=f"set_render_method[{recv}] unset: del {cell}")
-        for st_ in unset_if.body:
-            for t, st in stores_in(st_):
-                if norm(t) == cell and not isinstance(st, ast.Delete):
-                    gs = [norm(g_) for g_, b in guards(st) if b]
-                    own_default = any(("vars(cls)" in g_ or "cls.__dict__" in g_) and "'_default_render_method' in" in g_ for g_ in gs)
-                    ck.ob("R1", st, recv == "cls" and own_default and norm(st.value) == "cls._default_render_method",
-                          f"unset stores to `{cell}` instead of removing the override (guards: {gs}); only the class defining "
-                          f"_default_render_method in its own body may store it - any other class must follow its parent",
-                          stmt=f"set_render_method[{recv}] unset: {short(st, 70)}")
+        for t, st in acts:
+            if ctx(fn, st) == "unset" and not isinstance(st, ast.Delete):
+                gs = sorted(econds(fn, st))
+                own_default = any(("vars(cls)" in g_ or "cls.__dict__" in g_) and "'_default_render_method' in" in g_ and not g_.startswith("not ") for g_ in gs)
+                ck.ob("R1", st, recv == "cls" and own_default and norm(st.value) == "cls._default_render_method",
+                      f"unset stores to `{cell}` instead of removing the override (guards: {gs}); only the class defining "
+                      f"_default_render_method in its own body may store it - any other class must follow its parent",
+                      stmt=f"set_render_method[{recv}] unset: {short(st, 70)}")
     meta = m.get(IT, "ITerm2ImageMeta")
     for prop, cell in (("jpeg_quality", "self._jpeg_quality"), ("read_from_file", "self._read_from_file")):
         acc = _accessors(meta, prop)
@@ -110,13 +134,14 @@ def run(ck, m):
     # R2 for set_render_method set-branches
     for fn, recv in ((cls_form, "cls"), (inst_form, "self")):
         cell = f"{recv}._render_method"
-        unset_if = next(s for s in fn.body if isinstance(s, ast.If) and norm(s.test) in ("not method", "method is None"))
-        sets = [st for st_ in unset_if.orelse for t, st in stores_in(st_) if norm(t) == cell]
-        ck.ob("R2", unset_if, len(sets) == 1 and len(unset_if.orelse) == 1, f"the set branch of the {recv}-form must consist of the single store to `{cell}`",
+        acts = [(t, st) for t, st in stores_in(ast.Module(body=fn.body, type_ignores=[])) if norm(t) == cell]
+        sets = [st for t, st in acts if ctx(fn, st) == "set" and not isinstance(st, ast.Delete)]
+        setdels = [st for t, st in acts if ctx(fn, st) == "set" and isinstance(st, ast.Delete)]
+        ck.ob("R2", fn, len(sets) == 1 and not setdels, f"the set branch of the {recv}-form must consist of the single store to `{cell}`",
               stmt=f"set_render_method[{recv}] set: single store")
         other = [norm(t) for t, st in stores_in(ast.Module(body=fn.body, type_ignores=[])) if isinstance(t, ast.Attribute) and norm(t) != cell]
         ck.ob("R2", fn, not other, f"{recv}-form writes other cells {other}", stmt=f"set_render_method[{recv}]: only {cell}")
-        first_store = min([st.lineno for t, st in stores_in(ast.Module(body=fn.body, type_ignores=[])) if isinstance(t, ast.Attribute)] + [unset_if.lineno])
+        first_store = min([st.lineno for t, st in stores_in(ast.Module(body=fn.body, type_ignores=[])) if isinstance(t, ast.Attribute)] + [10 ** 9])
         for r in body_walk(fn):
             if isinstance(r, ast.Raise):
                 ck.ob("R2", r, r.lineno < first_store, "validation error raised after a store", stmt=f"set_render_method[{recv}]: {short(r, 50)} before stores")
@@ -125,7 +150,7 @@ def run(ck, m):
     for prop, expect in (("jpeg_quality", "lambda self: getattr(self, '_jpeg_quality', -1)"), ("read_from_file", "lambda self: getattr(self, '_read_from_file', True)")):
         asg = next((s for s in meta.body if isinstance(s, ast.Assign) and norm(s.targets[0]) == prop), None)
         ck.need(asg is not None and isinstance(asg.value, ast.Call) and asg.value.args, f"ITerm2ImageMeta.{prop} property construction not found")
-        ck.ob("R3", asg, norm(asg.value.args[0]) == expect, f"getter of {prop} must be `{expect}` (lookup through the instance/class, documented default)", stmt=f"{prop} getter")
+        ck.ob("R3", asg, _lam(asg.value.args[0]) == expect, f"getter of {prop} must be `{expect}` (lookup through the instance/class, documented default)", stmt=f"{prop} getter")
         # the instance side reuses the metaclass accessors
         icls = m.get(IT, "ITerm2Image")
         iasg = next((s for s in icls.body if isinstance(s, ast.Assign) and norm(s.targets[0]) == prop), None)
@@ -167,35 +192,41 @@ def run(ck, m):
     ck.need("setter" in acc, "ImageMeta.forced_support.setter not found")
     _all_paths_store(ck, "R4", acc["setter"], "self._forced_support", "forced_support.setter")
     fsl = next((s for s in m.get(CM, "BaseImage").body if isinstance(s, ast.Assign) and norm(s.targets[0]) == "forced_support"), None)
-    ck.ob("R4", fsl or base, fsl is not None and norm(fsl.value.args[0]) == "lambda self: type(self)._forced_support", "instance-side forced_support must read type(self)._forced_support", stmt="BaseImage.forced_support getter")
+    ck.ob("R4", fsl or base, fsl is not None and _lam(fsl.value.args[0]) == "lambda self: type(self)._forced_support", "instance-side forced_support must read type(self)._forced_support", stmt="BaseImage.forced_support getter")
 
     # ---- R5 ----------------------------------------------------------------------------
     acc = _accessors(meta, "native_anim_max_bytes")
     ck.need({"setter", "deleter"} <= set(acc), "native_anim_max_bytes accessors not found")
     asg = next((s for s in meta.body if isinstance(s, ast.Assign) and norm(s.targets[0]) == "native_anim_max_bytes"), None)
-    ck.ob("R5", asg or meta, asg is not None and norm(asg.value.args[0]) == "lambda self: __class__._native_anim_max_bytes", "getter must read __class__._native_anim_max_bytes (the one global cell)", stmt="native_anim_max_bytes getter")
+    ck.ob("R5", asg or meta, asg is not None and _lam(asg.value.args[0]) == "lambda self: __class__._native_anim_max_bytes", "getter must read __class__._native_anim_max_bytes (the one global cell)", stmt="native_anim_max_bytes getter")
     _all_paths_store(ck, "R5", acc["setter"], "__class__._native_anim_max_bytes", "native_anim_max_bytes.setter")
     dl = acc["deleter"]
-    sts = [st for t, st in stores_in(ast.Module(body=dl.body, type_ignores=[]))]
-    ck.ob("R5", dl, len(sts) == 1 and norm(sts[0]) == "__class__._native_anim_max_bytes = __class__.__native_anim_max_bytes", "deleter must restore the private default into the global cell", stmt="native_anim_max_bytes deleter")
+    sts = [st for t, st in stores_in(ast.Module(body=dl.body, type_ignores=[])) if isinstance(t, ast.Attribute)]
+    ck.ob("R5", dl, len(sts) == 1 and isinstance(sts[0], ast.Assign) and norm(sts[0].targets[0]) == "__class__._native_anim_max_bytes" and norm(trace(dl, sts[0].value)) == "__class__.__native_anim_max_bytes", "deleter must restore the private default into the global cell", stmt="native_anim_max_bytes deleter")
     for rel, _q, t, st in m.stores():
 
         if True:
             if isinstance(t, ast.Attribute) and t.attr == "_native_anim_max_bytes" and norm(t.value) != "__class__":
                 ck.ob("R5", st, False, f"`{norm(t)}` creates a second cell for the global native-animation limit", stmt=f"{rel}: {short(st, 70)}")
     iasg = next((s for s in m.get(IT, "ITerm2Image").body if isinstance(s, ast.Assign) and norm(s.targets[0]) == "native_anim_max_bytes"), None)
-    ck.ob("R5", iasg or meta, iasg is not None and norm(iasg.value.args[0]) == "lambda self: type(self)._native_anim_max_bytes", "instance-side getter must read through type(self)", stmt="ITerm2Image.native_anim_max_bytes getter")
+    ck.ob("R5", iasg or meta, iasg is not None and _lam(iasg.value.args[0]) == "lambda self: type(self)._native_anim_max_bytes", "instance-side getter must read through type(self)", stmt="ITerm2Image.native_anim_max_bytes getter")
 
     # ---- R6 ----------------------------------------------------------------------------
     def checks(fn, recv_cls):
-        out = []
-        for s in fn.body:
-            if isinstance(s, ast.If) and any(isinstance(x, ast.Raise) for x in s.body):
-                out.append(norm(s.test).replace(recv_cls, "<C>"))
-        return out
+        out = set()
+        for r in body_walk(fn):
+            if isinstance(r, ast.Raise):
+                # the conditions that select this error (enclosing tests taken); what earlier guard clauses excluded is left out
+                pos = set()
+                for t, b_ in guards(r):
+                    if b_:
+                        for v in flatten_boolop(expand(fn, t), ast.And):
+                            pos.add(norm(v).replace(recv_cls, "<C>"))
+                out.add(frozenset(pos))
+        return sorted(sorted(x) for x in out)
     a, b = checks(cls_form, "cls"), checks(inst_form, "type(self)")
     ck.ob("R6", inst_form, a == b and len(a) >= 2, f"the two forms validate differently: class form {a} vs instance form {b}", stmt="set_render_method: sibling validation")
-    ck.ob("R6", cls_form, any("<C>._render_methods" in x for x in a), "validation must be against the receiver class's _render_methods", stmt="set_render_method: validates against _render_methods")
+    ck.ob("R6", cls_form, any("<C>._render_methods" in y for x in a for y in x), "validation must be against the receiver class's _render_methods", stmt="set_render_method: validates against _render_methods")
 
 
 MUTANTS = [
